@@ -28,11 +28,12 @@ fn reps(class: &str) -> Vec<Vec<u8>> {
         "U" => vec![s("é"), s("日"), s("😀"), s("\u{a0}"), s("ß")],
         "O" => vec![s("\u{85}"), s("\u{200b}"), s("\u{e000}"), s("\u{378}"), s("\u{feff}"), s("\u{ad}")],
         "I" => vec![vec![0xff], vec![0xc3], vec![0x80], vec![0xf8]],
+        "S" => vec![s(" (esc)"), s(" (escaped)")],
         other => tool_error(&format!("unknown class {other}")),
     }
 }
 
-const CLASSES: &[&str] = &["P", "Px", "Ph", "P0", "Pe", "Pn", "B", "T", "Cn", "Cx", "U", "O", "I"];
+const CLASSES: &[&str] = &["P", "Px", "Ph", "P0", "Pe", "Pn", "B", "T", "Cn", "Cx", "U", "O", "I", "S"];
 
 fn escaper(mode: &str) -> Escaper {
     if mode == "ascii" { Escaper::Ascii } else { Escaper::Unicode }
@@ -48,6 +49,13 @@ fn observe(mode: &str, chars: &[Vec<u8>], neighbours: &[Vec<u8>]) -> Value {
         Ok(t) => t,
         Err(m) => return json!({"result": "panic", "msg": m, "text": [], "marked": false, "printable_ok": false, "parse_ok": false, "matches_orig": false, "neighbour_matches": 0}),
     };
+    // a line that needs no escaping and itself ends like the marker: known collision (C09 sfx_esc), not judged here; the
+    // trace specification accepts this only where the model's Collides holds
+    if text.as_bytes() == line.as_slice() && (line.ends_with(b" (esc)") || line.ends_with(b" (escaped)")) {
+        let printable_ok = if mode == "ascii" { text.bytes().all(|b| (0x20..=0x7e).contains(&b)) } else { text.chars().all(|c| !c.is_other()) };
+        return json!({"result": "collision", "msg": "", "text": bytes_to_json(text.as_bytes()), "text_s": text, "marked": false, "printable_ok": printable_ok,
+                      "parse_ok": false, "matches_orig": false, "neighbour_matches": 0, "render": {"result": "skip"}});
+    }
     let first = judge_text(mode, &text, &line, &with_nl, neighbours);
     // second path by which scrut writes expectation text: the canonical rendering of an existing `equal`
     // expectation (used when documents are updated); only possible for lines that are valid UTF-8
